@@ -57,6 +57,13 @@ DEFAULT_SPEC = {
     "split_gene": 0,       # 1: a gene whose two isoforms use disjoint exon sets, with another gene nested between them
     "decoy_chr": 0,        # 1: extra chromosome on which every alignment is filtered out (MAPQ 0, unspliced secondary, supplementary)
     "novel_locus": 0,      # 1: an unannotated multi-exon locus with good coverage on every chromosome (-> novel genes)
+    "pile": 0,             # 1: extra chromosome chrP: (a) >= 1024 short reads of a mono-exonic gene inside one 256-bp coverage bin,
+                           #    (b) a > 64 kb island whose second part is deep (> 200 reads in one bin) and ends in a bin covered
+                           #    by two reads only, one of them lying entirely inside that last bin
+    "ambig_multi": 0,      # N reads with several alignment records whose kept record(s) name one gene but two isoforms:
+                           #    even k: read covering only exons shared by two isoforms + a losing 3-exon intergenic secondary;
+                           #    odd k: primary = isoform 1, secondary = isoform 2 of the same gene (tie inside one gene)
+    "group_tag": "RG",     # BAM tag that carries the group (C09: --read_group tag:<TAG>)
     "twin_chr": 0,         # 1: extra chromosome that is a copy of the first one (same coordinates and strands, own gene ids and reads)
     "novel_gene_overlap": 0,  # k unannotated transcripts inside an annotated gene's span with entirely novel (shifted) introns
     "bam_split": "random", # how reads are dealt into files: random | chunks (contiguous by position) | tiny (one file gets 1 read)
@@ -331,6 +338,20 @@ def generate(spec):
         lb.isoforms = [(lb.gid + ".t1", [0, 1])]
         long_genes = [l1, l2, lb]
         genes.append(long_genes)
+    pile_gene = None
+    if s["pile"]:
+        rs = random.Random("%d/seq/chrP" % s["seed"])
+        PL = 78000 + rg.randrange(300)
+        while PL in lens or PL in [len(sq) for _, sq in chroms]:
+            PL += 1
+        chroms.append(["chrP", [BASES[rs.randrange(4)] for _ in range(PL)]])
+        names.append("chrP")
+        gcount += 1
+        # 0-based 1039..1249 lies inside coverage bin 4 (1024..1279)
+        pile_gene = Gene(gene_name(s, gcount), "chrP", "+", [(1040, 1250)])
+        pile_gene.isoforms = [(pile_gene.gid + ".t1", [0])]
+        pile_gene.no_extra = True
+        genes.append([pile_gene])
     cidx = {n: i for i, n in enumerate(names)}
     # break accidental homopolymers is unnecessary; plant splice sites
     for cg in genes:
@@ -448,6 +469,8 @@ def generate(spec):
             variants += [("novel:%s:%d" % (g.gid, k), idx, 3, True) for k, idx in enumerate(g.novel)]
         if g in long_genes:
             variants = [(tid, idx, 6 if g is not long_genes[2] else 1, False) for tid, idx in g.isoforms]
+        if g is pile_gene:
+            variants = [(tid, idx, 1100, False) for tid, idx in g.isoforms]
         for tid, idx, cov, is_novel in variants:
             for k in range(cov):
                 blocks = [g.exons[i] for i in idx]
@@ -505,7 +528,7 @@ def generate(spec):
         reads.append({"id": "r%04d" % rid, "src": "intergenic", "gene": None, "kind": "lowmapq",
                       "records": [mk_record(chroms[ci][0], [(60, 230)], "+", False, mapq=0)]})
     if s.get("illumina") and s["drop_chr_annotation"]:
-        plain = [c for c, _ in chroms if c not in ("chrL", "chrT", "chrD", "NT_twin.1", "decoy_1")]
+        plain = [c for c, _ in chroms if c not in ("chrL", "chrP", "chrT", "chrD", "NT_twin.1", "decoy_1")]
         dropped_ = plain[len(plain) - s["drop_chr_annotation"]:]
         for g in allgenes:
             if g.chrom in dropped_ and len(g.exons) >= 2 and g.paralog_of is None and g.gid not in para_of \
@@ -549,8 +572,23 @@ def generate(spec):
             rid += 1
             reads.append({"id": "r%04d" % rid, "src": kind, "gene": None, "kind": kind,
                           "records": [mk_record("chrL", [(max(1, a), b) for a, b in blocks], "+", False)]})
+    if pile_gene is not None:
+        extra = []
+        for k in range(3):
+            extra.append(("pile_left", [(5000 + 7 * k, 5200), (39000, 39300 - 5 * k)]))
+        extra.append(("pile_bridge", [(39250, 40100)]))
+        for k in range(214):
+            extra.append(("pile_deep", [(40050 + k % 30, 40200 - k % 7)]))
+        for k in range(4):
+            extra.append(("pile_right", [(40060 + 3 * k, 40300), (75000, 75300 - 2 * k)]))
+        extra.append(("pile_tail_x", [(75200, 75600)]))
+        extra.append(("pile_tail_y", [(75560, 75700)]))
+        for kind, blocks in extra:
+            rid += 1
+            reads.append({"id": "r%04d" % rid, "src": kind, "gene": None, "kind": kind,
+                          "records": [mk_record("chrP", blocks, "+", False)]})
     if s["decoy_chr"]:
-        dname = names[-1]
+        dname = "chrD" if not s.get("chr_naming") else "decoy_1"
         rid += 1
         reads.append({"id": "r%04d" % rid, "src": "decoy", "gene": None, "kind": "decoy_mapq0",
                       "records": [mk_record(dname, [(200, 460)], "+", False, mapq=0)]})
@@ -576,6 +614,37 @@ def generate(spec):
                 mk_record(ca, blocks, "+", False, flag_extra=256, with_seq=bool(s["secondary_seq"])),
                 mk_record(cb, blocks, "+", False, flag_extra=256, with_seq=bool(s["secondary_seq"]))]
         reads.append({"id": "r%04d" % rid, "src": "intergenic", "gene": None, "kind": "intergenic_multi", "records": recs})
+    if s["ambig_multi"]:
+        cands = [g for g in allgenes if len(g.isoforms) >= 2 and g.paralog_of is None and g.gid not in para_of
+                 and not getattr(g, "no_extra", False) and not getattr(g, "annotation_only", False) and g is not deep
+                 and g not in long_genes and len(g.isoforms[1][1]) >= 2]
+        for k in range(s["ambig_multi"]):
+            if not cands:
+                break
+            g = cands[(k // 2) % len(cands)]
+            i1, i2 = g.isoforms[0][1], g.isoforms[1][1]
+            shared = None
+            missing = [i for i in i1 if i not in i2]
+            if len(missing) == 1 and len(i2) == len(i1) - 1 and 0 < missing[0] < len(i1) - 1:
+                left, right = i1[:missing[0]], i1[missing[0] + 1:]
+                shared = max((left, right), key=len)
+                if len(shared) < 2:
+                    shared = None
+            rid += 1
+            if k % 2 == 0 and shared is not None:
+                other_chr = [c for c, _ in chroms if c != g.chrom and c not in ("chrL", "chrP", "chrD", "decoy_1")]
+                oc = other_chr[k % len(other_chr)] if other_chr else g.chrom
+                j = 3 * k
+                recs = [mk_record(g.chrom, [g.exons[i] for i in shared], g.strand, False),
+                        mk_record(oc, [(33 + j, 88 + j), (123 + j, 183 + j), (218 + j, 273 + j)], "+", False, flag_extra=256,
+                                  with_seq=bool(s["secondary_seq"]))]
+                kind = "ambig_shared+intergenic_secondary"
+            else:
+                recs = [mk_record(g.chrom, [g.exons[i] for i in i1], g.strand, False),
+                        mk_record(g.chrom, [g.exons[i] for i in i2], g.strand, False, flag_extra=256,
+                                  with_seq=bool(s["secondary_seq"]))]
+                kind = "two_isoforms_one_gene"
+            reads.append({"id": "r%04d" % rid, "src": g.isoforms[0][0], "gene": g.gid, "kind": kind, "records": recs})
     for k in range(s["supplementary"]):
         g = allgenes[k % len(allgenes)]
         rid += 1
@@ -654,10 +723,11 @@ def _gtf_lines(truth):
     for g in truth["genes"]:
         by_chr.setdefault(g.chrom, []).append(g)
     n = 0
-    dropped = [c for c, _ in truth["chroms"] if c != "chrL"][len([c for c, _ in truth["chroms"] if c != "chrL"]) - s["drop_chr_annotation"]:] \
+    dropped = [c for c, _ in truth["chroms"] if c not in ("chrL", "chrP")][len([c for c, _ in truth["chroms"] if c not in ("chrL", "chrP")]) - s["drop_chr_annotation"]:] \
         if s["drop_chr_annotation"] else []
     used_tids = set()
-    for chrom, _ in truth["chroms"]:
+    ordinary_count = {}
+    for chrom_i, (chrom, _) in enumerate(truth["chroms"]):
         if chrom in dropped:
             for g in by_chr.get(chrom, []):
                 g.unannotated = True
@@ -685,13 +755,17 @@ def _gtf_lines(truth):
                     pass
                 elif s["pre_ids"] and k == 0 and first_on_chr and s["pre_ids"] >= 2:
                     otid = "transcript:ENSX%05d" % n            # Ensembl-GFF3 style id that merely starts with "transcript"
-                elif s["pre_ids"] and k == 0:
-                    # ids left by an earlier IsoQuant run: numbers from 7 (1..6 are used by the leftovers block when pre_ids >= 2)
-                    j = len([t for t in used_tids if t.startswith("transcript") and (".%s." % chrom) in t])
-                    otid = "transcript%d.%s.%s" % (40 + j // 2, chrom, "nic" if j % 2 == 0 else "nnic")
+                elif s["pre_ids"]:
+                    # ids left by an earlier IsoQuant run, attached to ordinary genes: the smallest numbers a new run would
+                    # otherwise hand out on this chromosome (pre_ids >= 2: the leftovers block uses transcript numbers
+                    # 1+2c..6+2c and novel-gene numbers 7+2c..18+2c, so these start at 19+2c), both suffixes per number
+                    base_num = 1 if s["pre_ids"] < 2 else 19 + 2 * chrom_i
+                    j = ordinary_count.get(chrom, 0)
+                    ordinary_count[chrom] = j + 1
+                    otid = "transcript%d.%s.%s" % (base_num + j // 2, chrom, "nic" if j % 2 == 0 else "nnic")
                     while otid in used_tids:
                         j += 1
-                        otid = "transcript%d.%s.%s" % (40 + j // 2, chrom, "nic" if j % 2 == 0 else "nnic")
+                        otid = "transcript%d.%s.%s" % (base_num + j // 2, chrom, "nic" if j % 2 == 0 else "nnic")
                 used_tids.add(otid)
                 first_on_chr = False
                 g.out_tids.append(otid)
@@ -813,7 +887,7 @@ def build(spec, outdir, gtf_gz=False, write_bams=True):
                     a.next_reference_start = -1
                     tags = [("NM", 0)]
                     if r["group"] is not None:
-                        tags.append(("RG", r["group"]))
+                        tags.append((s.get("group_tag") or "RG", r["group"]))
                     a.set_tags(tags)
                     out.write(a)
                 for u in range(fi, s["unmapped"], len(exp["files"])):
